@@ -211,8 +211,8 @@ def key_far(fi, q, t):
     # the drift is linear in the distance from 2000 (measured on 1.2e5
     # queries of the unchanged tree: worst case 1.47 months at 2000, 1.59 at
     # +-500 years, 1.92 at +-1900): the same mechanism explains an excess
-    # over 1.6 months from about 500 years on, never before
-    if months <= 1.48 + 0.00025 * abs(yr - 2000.0):
+    # over 1.6 months from about 400 years on (1.607 seen at 503), never before
+    if months <= 1.50 + 0.00025 * abs(yr - 2000.0):
         return "lunar-finder.result-drifts-from-query-far-from-2000"
     return None
 
